@@ -90,10 +90,10 @@ def affinePreimage (G : GridGens) (v : Nat) (e : Vec) (b d : Rat) : GridGens :=
   let ev := e.getD v 0
   if ev ≠ 0 then
     -- inverse map: x_v := (d x_v - Σ_{i≠v} e_i x_i - b) / e_v
-    affineImage G v (vsub (setCoord [] v d) (setCoord e v 0)) (-b) ev
+    affineImage G v (vsub (vsmul d (unit v)) (vsub e (vsmul ev (unit v)))) (-b) ev
   else
     -- x_v is forgotten: intersect with d x_v = ⟨e,x⟩ + b, then unconstrain x_v
-    addLine (intersectCon G { a := vsub (setCoord [] v d) e, b := -b, f := 0 }) (unit v)
+    addLine (intersectCon G { a := vsub (vsmul d (unit v)) e, b := -b, f := 0 }) (unit v)
 
 /-- image of the relation `lhs(w) ≡_f rhs(v) ∧ wᵢ = vᵢ (lhsᵢ = 0)`; `n` = space dimension -/
 def relImage (n : Nat) (G : GridGens) (lhs : Vec) (lb : Rat) (rhs : Vec) (rb : Rat) (f : Rat) : GridGens :=
@@ -181,6 +181,9 @@ def boundsExpr (G : GridGens) (e : Vec) : Bool :=
   | .empty => true
   | .gens g => g.params.all (fun q => dot e q == 0) && g.lines.all (fun l => dot e l == 0)
 
+/-- `⌊q⌋` -/
+def ratFloor (q : Rat) : Int := q.num / (q.den : Int)
+
 /-- positive generator of `ℤ r1 + ℤ r2` -/
 def ratGcd (r1 r2 : Rat) : Rat :=
   if r1 = 0 then (if r2 < 0 then -r2 else r2)
@@ -189,6 +192,16 @@ def ratGcd (r1 r2 : Rat) : Rat :=
     let k := combineCoef r1 r2
     let g := (k.1 : Rat) * r1 + (k.2.1 : Rat) * r2
     if g < 0 then -g else g
+
+/-- the members of `r0 + f ℤ` (`f > 0`) of least magnitude (two when `±f/2` tie) -/
+def leastAbs (r0 f : Rat) : List Rat :=
+  let k : Int := ratFloor (r0 / f)
+  let lo := r0 - (k : Rat) * f        -- in [0, f)
+  let hi := lo - f                    -- in [-f, 0)
+  if lo < -hi then [lo] else if -hi < lo then [hi] else [lo, hi]
+
+/-- gcd of the products of the parameters with `e` -/
+def freqOf (g : Gens) (e : Vec) : Rat := (g.params.map (dot e)).foldl ratGcd 0
 
 /-- `frequency`: `none` if empty or a line moves the expression; else `(f, values)` where `f ≥ 0`
     generates the differences of the values of `⟨e,x⟩ + b` on the grid and `values` lists the
@@ -199,14 +212,9 @@ def frequency (G : GridGens) (e : Vec) (b : Rat) : Option (Rat × List Rat) :=
   | .gens g =>
     if g.lines.any (fun l => dot e l != 0) then none
     else
-      let f := g.params.foldl (fun acc q => ratGcd acc (dot e q)) 0
+      let f := freqOf g e
       let r0 := dot e g.pt + b
-      if f = 0 then some (0, [r0])
-      else
-        let k : Int := (r0 / f).floor
-        let lo := r0 - (k : Rat) * f        -- in [0, f)
-        let hi := lo - f                    -- in [-f, 0)
-        if lo < -hi then some (f, [lo]) else if -hi < lo then some (f, [hi]) else some (f, [lo, hi])
+      some (f, if f = 0 then [r0] else leastAbs r0 f)
 
 /-- relation with a congruence: (is_disjoint, strictly_intersects, is_included, saturates) -/
 def relCg (G : GridGens) (c : Cg) : Bool × Bool × Bool × Bool :=
